@@ -248,7 +248,7 @@ func TestVerif_C04_LongMessage(t *testing.T) {
 // the bit length no longer fits in 32 bits.
 func TestVerif_C04_LongZeroVectors(t *testing.T) {
 	rec := stats.Get("C04", "long-zero-vectors")
-	rec.Rule("static third-party vectors (vectors/sm3_openssl_long_zero.json, openssl dgst -sm3 over N zero bytes, N = 2^29-1, 2^29, 2^29+65, 2^30+3, 2^32-1, 2^32, 2^32+197): the zero bytes come from a read-only anonymous mapping and are written in 1 MiB..64 MiB chunks with a Sum at the half-way point; quick runs the two lengths around 2^29, thorough all seven. Each case non-trivial (bit length at or above 2^32); distinct by length.")
+	rec.Rule("static third-party vectors (vectors/sm3_openssl_long_zero.json, openssl dgst -sm3 over N zero bytes, N = 2^28-1 .. 2^32+197, twelve lengths): the zero bytes come from a read-only anonymous mapping and are written in 1 MiB..64 MiB chunks with a Sum at the half-way point; quick runs the two lengths around 2^29, thorough all. Each case non-trivial (bit length at or above 2^32); distinct by length.")
 	rec.Exhaustive(true)
 	t.Cleanup(stats.FlushAll)
 	b, err := os.ReadFile(filepath.Join(os.Getenv("VERIF_DIR"), "vectors", "sm3_openssl_long_zero.json"))
@@ -272,7 +272,7 @@ func TestVerif_C04_LongZeroVectors(t *testing.T) {
 	}
 	defer syscall.Munmap(mem)
 	for i, v := range f.Vectors {
-		if !vt.Thorough() && i != 1 && i != 2 {
+		if !vt.Thorough() && v.ZeroBytes != 1<<29 && v.ZeroBytes != 1<<29+65 {
 			continue
 		}
 		if v.ZeroBytes > int64(^uint(0)>>1) {
@@ -458,4 +458,98 @@ func TestVerif_C04_StateWordCorpus(t *testing.T) {
 			vt.Fail(t, rec, "C04:oneshot", "SumSM3 of such a message differs from the reference\nmsg=%x\n got %x\nwant %x", msg, got, want)
 		}
 	})
+}
+
+
+// The 32-bit build (GOARCH=386): lengths at which a byte or bit count no longer fits a 32-bit int. One Write of 2^28-1, 2^28 and
+// 2^28+65 zero bytes (the bit length reaches 2^31) in both tiers; in the thorough tier 2^31+60 and 2^31+67 bytes streamed in 1 MiB
+// Writes through ONE hash value with Sums on the way (the byte count passes 2^31). Zero pages; OpenSSL digests.
+func TestVerif_C04_LongZero32Bit(t *testing.T) {
+	rec := stats.Get("C04", "long-zero-32bit")
+	rec.Rule("32-bit build only: static OpenSSL digests of N zero bytes; N = 2^28-1, 2^28, 2^28+65 handed over in ONE Write and through SumSM3 (quick and thorough); N = 2^31+60, 2^31+67 streamed in 1 MiB Writes through one hash value with an intermediate Sum at 2^31+60 (thorough). Each case non-trivial (bit or byte count at or above 2^31); distinct by (length, shape).")
+	rec.Exhaustive(true)
+	t.Cleanup(stats.FlushAll)
+	if strconv.IntSize != 32 {
+		rec.Skipped("64-bit build: the counts of interest fit an int; the 386 unit runs this")
+		return
+	}
+	b, err := os.ReadFile(filepath.Join(os.Getenv("VERIF_DIR"), "vectors", "sm3_openssl_long_zero.json"))
+	if err != nil {
+		rec.Skipped("vectors/sm3_openssl_long_zero.json not readable: " + err.Error())
+		return
+	}
+	var f struct {
+		Vectors []struct {
+			ZeroBytes int64  `json:"zero_bytes"`
+			Digest    string `json:"digest"`
+		}
+	}
+	if err := json.Unmarshal(b, &f); err != nil {
+		t.Fatal(err)
+	}
+	want := map[int64]string{}
+	for _, v := range f.Vectors {
+		want[v.ZeroBytes] = v.Digest
+	}
+	mem, err := syscall.Mmap(-1, 0, 1<<28+4096, syscall.PROT_READ, syscall.MAP_ANON|syscall.MAP_PRIVATE)
+	if err != nil {
+		rec.Skipped("cannot map 256 MiB of zero pages: " + err.Error())
+		return
+	}
+	defer syscall.Munmap(mem)
+	for _, n := range []int{1<<28 - 1, 1 << 28, 1<<28 + 65} {
+		w, ok := want[int64(n)]
+		if !ok {
+			continue
+		}
+		h := sm3.New()
+		if wn, werr := h.Write(mem[:n]); wn != n || werr != nil {
+			vt.Fail(t, rec, "C04:write:return", "Write(%d) returned (%d,%v)", n, wn, werr)
+		}
+		rec.Enumerated(1, "one-write")
+		if got := fmt.Sprintf("%x", h.Sum(nil)); got != w {
+			vt.Fail(t, rec, "C04:sum:digest", "32-bit build: digest of %d zero bytes written in ONE Write (bit length %d) differs from OpenSSL\n got %s\nwant %s", n, uint64(n)*8, got, w)
+		}
+		d := sm3.SumSM3(mem[:n])
+		rec.Enumerated(1, "sumsm3")
+		if got := fmt.Sprintf("%x", d[:]); got != w {
+			vt.Fail(t, rec, "C04:oneshot", "32-bit build: SumSM3 of %d zero bytes differs from OpenSSL\n got %s\nwant %s", n, got, w)
+		}
+	}
+	if !vt.Thorough() {
+		return
+	}
+	if si, _ := vt.Shard(); si != 0 {
+		return
+	}
+	h := sm3.New()
+	var total int64
+	feed := func(upto int64) {
+		for total < upto {
+			n := int64(1 << 20)
+			if total+n > upto {
+				n = upto - total
+			}
+			if wn, werr := h.Write(mem[:n]); int64(wn) != n || werr != nil {
+				vt.Fail(t, rec, "C04:write:return", "Write(%d) after %d bytes returned (%d,%v)", n, total, wn, werr)
+			}
+			total += n
+		}
+	}
+	for _, n := range []int64{1<<31 + 60, 1<<31 + 67} {
+		w, ok := want[n]
+		if !ok {
+			continue
+		}
+		var got string
+		if p := vt.Catch(func() { feed(n); got = fmt.Sprintf("%x", h.Sum(nil)) }); p != nil {
+			vt.Fail(t, rec, "C04:sum:panic", "32-bit build: Write/Sum panicked after %d bytes through one hash value: %v", total, p)
+			return
+		}
+		rec.Enumerated(1, "streamed")
+		if got != w {
+			vt.Fail(t, rec, "C04:sum:digest", "32-bit build: digest after %d zero bytes streamed through one hash value differs from OpenSSL\n got %s\nwant %s", n, got, w)
+			return
+		}
+	}
 }
